@@ -11,7 +11,7 @@ use std::panic::{catch_unwind, AssertUnwindSafe};
 
 fn budget(t: Tier) -> u64 {
     match t {
-        Tier::Quick => 396,
+        Tier::Quick => 396 * 8,
         Tier::Thorough => 12_672,
     }
 }
@@ -142,6 +142,8 @@ fn gen(seed: u64, idx: u64, tier: Tier) -> Plan {
     // provider (idx / 6) % 2, plaintext length (idx / 12) % 33
     plan.params.insert("plaintext_len".into(), 32 + ((idx / 12) % 33) as i64);
     plan.params.insert("provider".into(), ((idx / 6) % 2) as i64);
+    // what the plaintext looks like: random bytes, or text that is also valid in another encoding
+    plan.params.insert("plaintext_kind".into(), ((idx / 396) % 8) as i64);
     let wl = match idx % 6 {
         0 => 16,
         1 => 32,
@@ -181,6 +183,21 @@ fn check(plan: &Plan, _out: &RunOut) -> CheckOut {
     let mut rng = Rng::derive(plan.seed, "c14-data");
     let mut seed = vec![0u8; plen];
     rng.fill(&mut seed);
+    let alphabet: &[u8] = match plan.p("plaintext_kind") {
+        1 => b"0123456789abcdef",
+        2 => b"0123456789ABCDEFabcdef",
+        3 => b"ABCDEFGHIJKLMNOPQRSTUVWXYZabcdefghijklmnopqrstuvwxyz0123456789+/=",
+        4 => b"\0",
+        5 => b"\xff",
+        6 => b" \t\r\n#:'\"-_.~abcxyz",
+        7 => b"0123456789",
+        _ => b"",
+    };
+    if !alphabet.is_empty() {
+        for b in seed.iter_mut() {
+            *b = alphabet[*b as usize % alphabet.len()];
+        }
+    }
     let reg = Registry { wrapped_len: wlen, issued: RefCell::new(HashMap::new()), rng: RefCell::new(Rng::derive(plan.seed, "registry")) };
     let mut master = [0u8; 32];
     rng.fill(&mut master);
@@ -338,7 +355,7 @@ pub fn property() -> Property {
         gen,
         check,
         finalize: no_finalize,
-        rule: "for each sampled (plaintext length 32..=64, provider in {exact-match registry, AES-GCM wrapper}, wrapped-key length 16..=1024) the real encrypt_seed produces a blob (DEK and nonce drawn through the simulated entropy seam and therefore known), then every single-bit flip at every position, every single-byte change at every position (3 values quick, all 255 thorough), every truncation length, extensions by 1..=64 bytes, each provider fault on decrypt (error, different key, key lengths 0/16/31/33/64) alone and with one damaged byte, and each provider fault on encrypt (error, empty output, output longer than the 16-bit length field) is evaluated against the real decrypt_seed; evaluations = fault cases evaluated; distinct non-trivial = cases that changed at least one byte of the blob or one provider answer (every case does, by construction)",
+        rule: "for each sampled (plaintext length 32..=64, plaintext texture in {random bytes, lower-case hex text, mixed-case hex text, base64 text, zeros, 0xff, punctuation and whitespace, decimal digits}, provider in {exact-match registry, AES-GCM wrapper}, wrapped-key length 16..=1024) the real encrypt_seed produces a blob (DEK and nonce drawn through the simulated entropy seam and therefore known), then every single-bit flip at every position, every single-byte change at every position (3 values quick, all 255 thorough), every truncation length, extensions by 1..=64 bytes, each provider fault on decrypt (error, different key, key lengths 0/16/31/33/64) alone and with one damaged byte, and each provider fault on encrypt (error, empty output, output longer than the 16-bit length field) is evaluated against the real decrypt_seed; evaluations = fault cases evaluated; distinct non-trivial = cases that changed at least one byte of the blob or one provider answer (every case does, by construction)",
         assumptions: &["harness providers are non-malleable by construction, so a provider that ignores damaged bytes cannot cause a false alarm", "no scheduler is involved: this is fault enumeration on the KmsProvider seam and the stored blob"],
         real: "real code: roughenough::kms::EnvelopeEncryption::{encrypt_seed, decrypt_seed}, ring AES-256-GCM",
         stub: "stubs: KmsProvider implementations (registry, AES-GCM wrapper, XOR, fault injectors), entropy (ring SystemRandom stand-in)",
